@@ -13,7 +13,7 @@
 import copy
 import logging
 
-from s3transfer.utils import get_callbacks
+from s3transfer.utils import get_callbacks, get_filtered_dict
 
 try:
     from botocore.context import start_as_current_context
@@ -337,6 +337,12 @@ class SubmissionTask(Task):
 class CreateMultipartUploadTask(Task):
     """Task to initiate a multipart upload"""
 
+    # The extra args that also apply to aborting the multipart upload.
+    ABORT_MULTIPART_ARGS = [
+        'RequestPayer',
+        'ExpectedBucketOwner',
+    ]
+
     def _main(self, client, bucket, key, extra_args):
         """
         :param client: The client to use when calling CreateMultipartUpload
@@ -359,6 +365,7 @@ class CreateMultipartUploadTask(Task):
             Bucket=bucket,
             Key=key,
             UploadId=upload_id,
+            **get_filtered_dict(extra_args, self.ABORT_MULTIPART_ARGS),
         )
         return upload_id
 
